@@ -137,7 +137,7 @@ def run_case(case: Dict[str, Any], ctx: Any) -> core.CaseResult:
             if not key <= set(types):
                 res.bad("type-row-label", f"row {label!r} names a type that is not analysed ({types})")
             want_pct = round(100 * s_ / total, 1) if total else 0
-            if abs(float(pct) - want_pct) > 1e-9:
+            if abs(float(pct) - (100 * s_ / total if total else 0)) > 0.05 + 1e-9:      # one decimal, either rounding of .x5
                 res.bad("type-percentage", f"row {label!r}: percentage {pct} != round(100*{s_}/{total},1) = {want_pct}")
             if len(key) > 1:
                 res.counters["combo_rows_multi"] += 1
